@@ -99,6 +99,65 @@ theorem readFileH_wf (f : Fn) {st : HState} (h : Wf st.mgr) (ents : List HEnt) :
     · exact h
   · exact verify_wf (readSection_wf _ _ _ wf_empty)
 
+/-! ### merging into a held header (the branch of `HeaderMergeInstances` that keeps the old one) -/
+
+theorem has_append_mono {m : HMgr} (hw : Wf m) (id : Nat) (e : HEnt) {x : Nat} (h : m.has x = true) : (m.append id e).has x = true := by
+  obtain ⟨id', hn⟩ := append_ids m id e
+  rw [has_iff] at h ⊢
+  simp only [HMgr.ids, hn, List.map_append, List.mem_append]
+  exact Or.inl h
+
+theorem has_append_self {m : HMgr} (hw : Wf m) {id : Nat} (h0 : id ≠ 0) (hn : m.has id = false) (e : HEnt) :
+    (m.append id e).has id = true := by
+  rcases append_eq m id e hw with ⟨_, _, heq⟩ | ⟨hc, _⟩
+  · rw [heq, has_iff]; simp [HMgr.ids]
+  · rcases hc with hc | hc
+    · exact absurd hc h0
+    · rw [hn] at hc; cases hc
+
+theorem prefix_append (m : HMgr) (id : Nat) (e : HEnt) : m.nodes <+: (m.append id e).nodes := by
+  obtain ⟨id', hn⟩ := append_ids m id e
+  rw [hn]; exact List.prefix_append _ _
+
+/-- one step of the merge loop -/
+def mergeStep (new : HMgr) (o : HMgr) (id : Nat) : HMgr :=
+  if o.has id then o else match new.find id with | some e => o.append id e | none => o
+
+theorem mergeStep_wf (new : HMgr) {o : HMgr} (hw : Wf o) (id : Nat) : Wf (mergeStep new o id) := by
+  unfold mergeStep; split
+  · exact hw
+  · split
+    · exact append_wf hw _ _
+    · exact hw
+
+theorem mergeStep_prefix (new o : HMgr) (id : Nat) : o.nodes <+: (mergeStep new o id).nodes := by
+  unfold mergeStep; split
+  · exact List.prefix_refl _
+  · split
+    · exact prefix_append _ _ _
+    · exact List.prefix_refl _
+
+theorem mergeStep_mono (new : HMgr) {o : HMgr} (hw : Wf o) (id : Nat) {x : Nat} (h : o.has x = true) :
+    (mergeStep new o id).has x = true := by
+  unfold mergeStep; split
+  · exact h
+  · split
+    · exact has_append_mono hw _ _ h
+    · exact h
+
+theorem mergeStep_fills (new : HMgr) {o : HMgr} (hw : Wf o) {id : Nat} (h0 : id ≠ 0)
+    (h : o.has id = true ∨ (new.find id).isSome = true) : (mergeStep new o id).has id = true := by
+  unfold mergeStep
+  cases ho : o.has id with
+  | true => simp [ho]
+  | false =>
+    simp only [ho, Bool.false_eq_true, if_false]
+    rcases h with h | h
+    · rw [ho] at h; cases h
+    · cases hf : new.find id with
+      | none => rw [hf] at h; cases h
+      | some e => exact has_append_self hw h0 ho e
+
 /-! ### a header in the order Part 21 prescribes: the three required instances first -/
 
 /-- the three required instances are in the manager under their own ids, first in the list, and every other node has an id
